@@ -86,6 +86,27 @@ Fixpoint all2 {A B} (f : A -> B -> bool) (a : list A) (b : list B) : bool :=
   end.
 
 (* ---------------- spec_ok ---------------- *)
+(* one step: the implementation's decoded result / mask / strings / exception equal the Spec's, the object copy()
+   was taken from still reads as the Spec says, the initial array (when watched) still reads as the initial text *)
+Definition step_impl_ok (encid : Z) (v0 : value) (so : obs * option value) (st : istep) : bool :=
+  obs_matches encid false (fst so) (i_obs st)
+  && (is_quiet (i_obs st) || saved_matches (fun v => v) (snd so) (i_orig st))
+  && match i_root st with None => true | Some t => zll_eqb (snd (value_rows v0)) t end.
+(* the implementation satisfies the Spec (the part of spec_ok that Proofs/C07_link.v derives from model_ok) *)
+Definition impl_spec_ok (c : case) : bool :=
+  match init_value spec_prims c with
+  | None => false
+  | Some v0 =>
+      obs_matches (k_encid c) false (OV v0) (k_init_obs c)
+      && all2 (step_impl_ok (k_encid c) v0) (s_run v0 None (map i_op (k_steps c))) (k_steps c)
+  end.
+(* the Spec agrees with Python's own list/str semantics on this program (validates Spec + generator) *)
+Definition ref_ok (c : case) : bool :=
+  match init_value spec_prims c with
+  | None => false
+  | Some v0 => all2 (fun (so : obs * option value) (st : istep) => obs_matches (k_encid c) false (fst so) (i_exp st))
+                    (s_run v0 None (map i_op (k_steps c))) (k_steps c)
+  end.
 Definition spec_ok (c : case) : bool :=
   match init_value spec_prims c with
   | None => false
@@ -93,9 +114,7 @@ Definition spec_ok (c : case) : bool :=
       obs_matches (k_encid c) false (OV v0) (k_init_obs c)
       && all2 (fun (so : obs * option value) (st : istep) =>
                  obs_matches (k_encid c) false (fst so) (i_exp st)        (* Spec = Python's own semantics *)
-                 && obs_matches (k_encid c) false (fst so) (i_obs st)     (* implementation = Spec *)
-                 && (is_quiet (i_obs st) || saved_matches (fun v => v) (snd so) (i_orig st))
-                 && match i_root st with None => true | Some t => zll_eqb (snd (value_rows v0)) t end)
+                 && step_impl_ok (k_encid c) v0 so st)                    (* implementation = Spec *)
               (s_run v0 None (map i_op (k_steps c))) (k_steps c)
   end.
 
@@ -135,7 +154,7 @@ Fixpoint model_steps (encid : Z) (root : list (list Z)) (v : value) (saved : opt
          end
   end.
 
-Definition model_ok (c : case) : bool :=
+Definition model_core (c : case) : bool :=
   match init_value (model_prims_with m_prep current) c with
   | None => false
   | Some v0 =>
@@ -143,3 +162,36 @@ Definition model_ok (c : case) : bool :=
       && obs_matches (k_encid c) false (OV (dec_value v0)) (k_init_obs c)
       && model_steps (k_encid c) (snd (value_rows (dec_value v0))) v0 None (k_steps c)
   end.
+
+(* The view model of npstructures (Model/C07.v section 5) against the implementation: while a program only
+   selects rows / slices columns, the (buffer, starts, lengths, step) view is carried along — through steps that
+   are not observed too — and the rows it denotes must be the raw rows the implementation shows; after any other
+   step the array is a fresh contiguous one.  (Proofs/C07_view.v proves the same views denote the list semantics.) *)
+Fixpoint view_steps (v : value) (vw : option rview) (steps : list istep) : bool :=
+  match steps with
+  | [] => true
+  | st :: r =>
+      if unmodelled v (i_op st) then true else
+      let '(v', ob) := m_step_v current (i_writable st) v (i_op st) in
+      match ob with
+      | ORaise => true
+      | _ =>
+          let vw' := match vw with Some w => v_step w (i_op st) | None => None end in
+          let check := match vw', i_obs st with
+                       | Some w', IV 0 _ _ raw => zll_eqb (rv_rows w') raw
+                       | _, _ => true
+                       end in
+          let next := match vw' with
+                      | Some w' => Some w'
+                      | None => match v' with VR _ rows' => Some (rv_of_rows rows') | _ => None end
+                      end in
+          check && view_steps v' next r
+      end
+  end.
+Definition view_ok (c : case) : bool :=
+  match init_value (model_prims_with m_prep current) c with
+  | Some (VR e rows) => view_steps (VR e rows) (Some (rv_of_rows rows)) (k_steps c)
+  | _ => true
+  end.
+
+Definition model_ok (c : case) : bool := model_core c && view_ok c.
